@@ -1181,18 +1181,15 @@ func (x *Exec) collectMods(unit *FuncUnit, n ast.Node, ms *modSet, seen map[*typ
 			}
 		case *ast.SelectorExpr:
 			if sel, ok := info.Selections[l]; ok {
-				// find whether path goes through a pointer
+				// the heap field written is the last field on the path that is selected through a pointer
 				t := sel.Recv()
 				throughPtr := false
 				for _, i := range sel.Index() {
 					if el, ok := ptrElem(t); ok {
 						st, _ := structOf(el)
-						f := st.Field(i)
-						ms.fields[f] = true
 						throughPtr = true
-						t = f.Type()
-						// nested value structs inside heap field: the heap field is what changes
-						break
+						t = st.Field(i).Type()
+						continue
 					}
 					st, ok := structOf(t)
 					if !ok {
@@ -1203,7 +1200,6 @@ func (x *Exec) collectMods(unit *FuncUnit, n ast.Node, ms *modSet, seen map[*typ
 				if !throughPtr {
 					lhs(l.X)
 				} else {
-					// also intermediate heap fields further down (p.a.b with a pointer)
 					x.deepFields(info, l, ms)
 				}
 			} else if o := info.Uses[l.Sel]; o != nil {
